@@ -414,6 +414,15 @@ func buildOn(p mq.Packet, a *ref.AP, t *sim.Tape, ctor bool) (mq.Packet, *Recipe
 func buildSibling(rec *Recipe) {
 	defer func() { recover() }()
 	sib := &Recipe{Type: rec.Type, Origin: rec.Origin, PubQoS: rec.PubQoS ^ 1, PubTopic: "sibling/" + rec.PubTopic, PubPayload: "sibling"}
+	// first the very same calls (the sibling starts out EQUAL: shared small-value
+	// tables, interned defaults), then the same calls again with other values
+	for _, o := range rec.Ops {
+		o.Arg, o.Arena = nil, nil
+		if o.Kind == "filters" {
+			continue // a list would just grow; the changed copy below adds the sibling's own
+		}
+		sib.Ops = append(sib.Ops, o)
+	}
 	for _, o := range rec.Ops {
 		o.Arg = nil
 		switch o.Kind {
